@@ -31,6 +31,22 @@ deferring trait made by `Delegate.__init__`. -/
 def ClsOK (c : Cls) : Prop :=
   ClsWF c ∧ ∀ n d, c.trait n = .defer d → GoodName n ∧ ∃ raw m, d = mkDelegate raw m
 
+theorem clsOK_of_forall {c : Cls} (hwf : ClsWF c)
+    (h : ∀ ntd ∈ c.traits, ∀ d, ntd.2 = .defer d → GoodName ntd.1 ∧ ∃ raw m, d = mkDelegate raw m) : ClsOK c := by
+  refine ⟨hwf, fun n d htd => ?_⟩
+  unfold Cls.trait at htd
+  cases hl : c.traits.lookup n with
+  | none => rw [hl] at htd; simp at htd
+  | some td =>
+    rw [hl] at htd
+    simp only [Option.getD_some] at htd
+    subst htd
+    obtain ⟨l₁, l₂, heq, _⟩ := List.lookup_eq_some_iff.mp hl
+    exact h (n, .defer d) (by rw [heq]; simp) d rfl
+
+theorem clsOK_empty : ClsOK ⟨none, []⟩ :=
+  clsOK_of_forall (by simp [ClsWF]) (by intro ntd h; simp at h)
+
 /-- While linked (and no hook failed), the forwarder of `(o, n)` is among the forwarders of the target
 attribute on the current delegate. -/
 theorem forwarder_of_linked {p : Pool} (L : Linked p) {o : ObjId} (ho : o < p.size) (hc : ClsOK (p.obj o).cls)
